@@ -94,6 +94,7 @@ func runC11(c *Ctx) {
 	c.rule("D4", "converters normalise context errors first; a pass-through case for ErrTimeout/ErrCancelled precedes every re-classifying case", 5)
 	c.rule("D6", "deserialisation re-joins every element after the kind into the reason: loop from index 1, step one, unconditional append of the (trimmed) element", 1)
 	c.rule("D7", "writer and reader of the text form agree on the separators: kind/reason (constructors vs deserialiser) and joined errors (marshaller, errors.Join vs deserialiser)", 2)
+	c.rule("D8", "the filesystem converter maps a backend condition to one kind whatever the path: no case that recognises a condition by the error's text (which embeds the caller's path) is evaluated before a case that recognises another condition structurally; the timeout case recognises Timeout() errors (os.IsTimeout)", 2)
 	c.rule("D5", "every call of commonerrors.Any / None has at least one candidate error", 45)
 
 	p := c.tpkg(cePkg)
@@ -272,6 +273,7 @@ func runC11(c *Ctx) {
 	c.c11Vacuous()
 	c.c11Reason()
 	c.c11Separators()
+	c.c11ConverterTables()
 }
 
 // c11Separators (D7): writer and reader of the text form agree. The constructors write "kind<sep> reason" and the
@@ -726,3 +728,138 @@ func (c *Ctx) c11Vacuous() {
 }
 
 var _ = types.Universe
+
+// c11ConverterTables (D8). "The converters map each backend condition to one stable kind." ConvertFileSystemError is a
+// decision list whose cases mix structural tests (os.IsNotExist, errors.Is through commonerrors.Any) with tests on
+// the error's text (commonerrors.CorrespondTo). The text of an *os.PathError contains the path the caller supplied:
+// a textual case placed before a structural case of another kind lets the path decide the kind.
+func (c *Ctx) c11ConverterTables() {
+	p := c.tpkg("filesystem")
+	fd := funcDecl(p, "ConvertFileSystemError")
+	if fd == nil {
+		c.fatalf("anchor: filesystem.ConvertFileSystemError not found")
+		return
+	}
+	c.FuncsSeen["filesystem.ConvertFileSystemError"] = true
+	var sw *ast.SwitchStmt
+	ast.Inspect(fd.Body, func(n ast.Node) bool {
+		if x, ok := n.(*ast.SwitchStmt); ok && sw == nil && x.Tag == nil {
+			sw = x
+		}
+		return true
+	})
+	if sw == nil {
+		c.undecided("D8", "filesystem.ConvertFileSystemError/order", c.pos(fd.Pos()), "no tagless switch found")
+		return
+	}
+	type clause struct {
+		pos        token.Pos
+		kind       string
+		textual    []string
+		structural []string
+	}
+	calleeName := func(ce *ast.CallExpr) string {
+		switch f := ce.Fun.(type) {
+		case *ast.SelectorExpr:
+			if id, ok := f.X.(*ast.Ident); ok {
+				return id.Name + "." + f.Sel.Name
+			}
+			return f.Sel.Name
+		case *ast.Ident:
+			return f.Name
+		}
+		return ""
+	}
+	var clauses []clause
+	for _, st := range sw.Body.List {
+		cc, ok := st.(*ast.CaseClause)
+		if !ok || len(cc.List) == 0 {
+			continue
+		}
+		cl := clause{pos: cc.Pos(), kind: "unchanged"}
+		var leaves func(e ast.Expr)
+		leaves = func(e ast.Expr) {
+			switch x := e.(type) {
+			case *ast.ParenExpr:
+				leaves(x.X)
+			case *ast.BinaryExpr:
+				if x.Op == token.LOR || x.Op == token.LAND {
+					leaves(x.X)
+					leaves(x.Y)
+				}
+			case *ast.CallExpr:
+				n := calleeName(x)
+				switch {
+				case n == "commonerrors.CorrespondTo":
+					var texts []string
+					for _, a := range x.Args[1:] {
+						if tv, ok := p.TypesInfo.Types[a]; ok && tv.Value != nil {
+							texts = append(texts, tv.Value.ExactString())
+						}
+					}
+					cl.textual = append(cl.textual, strings.Join(texts, ", "))
+				case strings.HasPrefix(n, "os.Is") || n == "commonerrors.Any" || n == "errors.Is" || n == "errors.As":
+					cl.structural = append(cl.structural, n)
+				}
+			}
+		}
+		for _, e := range cc.List {
+			leaves(e)
+		}
+		ast.Inspect(&ast.BlockStmt{List: cc.Body}, func(n ast.Node) bool {
+			if se, ok := n.(*ast.SelectorExpr); ok {
+				if id, ok := se.X.(*ast.Ident); ok && id.Name == "commonerrors" && strings.HasPrefix(se.Sel.Name, "Err") && cl.kind == "unchanged" {
+					cl.kind = se.Sel.Name
+				}
+			}
+			return true
+		})
+		clauses = append(clauses, cl)
+	}
+	bad := ""
+	var badPos token.Pos
+	for i := range clauses {
+		if len(clauses[i].textual) == 0 {
+			continue
+		}
+		for j := i + 1; j < len(clauses); j++ {
+			if len(clauses[j].structural) > 0 && clauses[j].kind != clauses[i].kind && clauses[j].kind != "unchanged" {
+				bad = "the case recognising " + clauses[i].textual[0] + " in the error's text (→ " + clauses[i].kind + ") is evaluated before the structural case → " + clauses[j].kind + " (" + strings.Join(clauses[j].structural, ", ") + "): the text of an *os.PathError contains the caller's path, so e.g. a missing file below a directory whose name contains that text is not classified " + clauses[j].kind + " but " + clauses[i].kind
+				badPos = clauses[i].pos
+				break
+			}
+		}
+		if bad != "" {
+			break
+		}
+	}
+	if bad != "" {
+		c.violate("D8", "filesystem.ConvertFileSystemError/order", c.pos(badPos), bad)
+	} else {
+		c.ok("D8", "filesystem.ConvertFileSystemError/order", c.pos(sw.Pos()), strconv.Itoa(len(clauses))+" cases: every structural case precedes the cases that go by the error's text")
+	}
+	// the timeout case recognises errors reporting Timeout() — os.IsTimeout, or a Timeout() call
+	okTimeout := false
+	for _, cl := range clauses {
+		if cl.kind != "ErrTimeout" {
+			continue
+		}
+		for _, sname := range cl.structural {
+			if sname == "os.IsTimeout" {
+				okTimeout = true
+			}
+		}
+	}
+	if !okTimeout {
+		ast.Inspect(fd.Body, func(n ast.Node) bool {
+			if ce, ok := n.(*ast.CallExpr); ok {
+				if se, ok := ce.Fun.(*ast.SelectorExpr); ok && se.Sel.Name == "Timeout" && len(ce.Args) == 0 {
+					okTimeout = true
+				}
+			}
+			return true
+		})
+	}
+	c.check(okTimeout, "D8", "filesystem.ConvertFileSystemError/timeout", c.pos(fd.Pos()), "timeouts reported through Timeout() are recognised (os.IsTimeout)",
+		"no case maps an error that reports Timeout() (syscall.ETIMEDOUT, EAGAIN, net-style errors inside *os.PathError) to the 'timeout' kind: errors.Is(err, os.ErrDeadlineExceeded) and the text \"i/o timeout\" do not match them, they leave the converter unclassified and are wrapped as 'unexpected' further up")
+}
